@@ -116,6 +116,14 @@ def cases(tier, seed):
     return res
 
 
+def _single_array_axis(spec):
+    """Exactly one axis is indexed, by a 1-d integer array; every other element is a full slice or the ellipsis."""
+    arrays = [t for t in spec if isinstance(t, tuple) and t[0] == 'a']
+    rest = [t for t in spec if not (isinstance(t, tuple) and t[0] == 'a')]
+    return (len(arrays) == 1 and all(isinstance(v, int) for v in arrays[0][1])
+            and all(t == 'E' or t == ('s', None, None, None) for t in rest))
+
+
 def twins():
     return [('idx', ((3,),), (('a', (0, 2, 2)),)), ('pack', 'arr', (3,), (True, False, True))]
 
@@ -253,6 +261,11 @@ def run_case(key, twin=False):
             return violation(f'reduce() of P@P.T / P.T@P raises {type(ex).__name__}: {str(ex)[:120]} for {key}',
                              signature=f'c12-reduce-raises:{key}', kind='reduce-raises')
         notes.append((type(r1).__name__, type(r2).__name__))
+        if _single_array_axis(spec) and len({l.shape for l in jax.tree.leaves(ins)}) == 1 and not getattr(op0, 'unique_indices', False):
+            from furax._base.core import CompositionOperator
+            if isinstance(r2, CompositionOperator):
+                return violation(f'P.T @ P is not simplified although a single axis is indexed (by an integer array) for {key}: reduce() returns a composition',
+                                 signature=f'c12-ptp-not-simplified:{key}', kind='ptp-not-simplified')
         a1, _, _ = E.run(ctx, ppt(False), [('y', outs, 'sym')])
         b1, _, _ = E.run(ctx, ppt(True), [('y', outs, 'sym')])
         results.append(('PPT', dec.decide(ctx, pairs(a1, b1, ctx))))
@@ -412,6 +425,10 @@ def replay(key, model, info):
             close, msg = trees_close((op.T @ op).reduce().mv(x), (op.T @ op).mv(x))
             if close:
                 close, msg = trees_close((op.T @ op).reduce().mv(x), jax.tree.map(lambda l, st: scat(np.asarray(l)[npi], st), x, ins))
+        elif kind == 'ptp-not-simplified':
+            from furax._base.core import CompositionOperator
+            r = (op.T @ op).reduce()
+            return isinstance(r, CompositionOperator), f'(P.T @ P).reduce() is a {type(r).__name__}'
         elif kind == 'reduce-raises':
             (op @ op.T).reduce()
             (op.T @ op).reduce()
